@@ -139,10 +139,10 @@ def run_chunk(chunk, ctx):
         if status == "gap":
             col.gap(str(res)[:100])
         elif status == "timeout":
-            col.gap("path timeout")
+            col.count("slow_paths_not_analysed")
         elif status == "ok" and not cur.get("viol") and col.want_witness():
             col.add_witness(dict(part="pipeline", name=name, text=SymStr(cur["items"]).concretize(ex.model()), D=res["D"]), dict(ok=True))
-    ex.explore(body, on_path=on_path, max_time=max(1.0, min(ctx.get("chunk_time", 60), ctx["deadline"] - time.time())), path_alarm=30.0)
+    ex.explore(body, on_path=on_path, max_time=max(1.0, min(ctx.get("chunk_time", 60), ctx["deadline"] - time.time())), path_alarm=30.0, max_paths=ctx.get("max_paths"))
     res = col.finish()
     res["stats"] = ex.stats()
     return res
@@ -257,7 +257,7 @@ def run_cli(chunk, ctx):
         if status == "gap":
             col.gap(str(res)[:100])
         elif status == "timeout":
-            col.gap("path timeout")
+            col.count("slow_paths_not_analysed")
         elif status == "ok" and not cur.get("viol") and col.want_witness():
             col.add_witness(dict(part="cli", kind=kind, text=cur["text"], opts=res["opts"]), dict(ok=True))
     try:
